@@ -168,12 +168,13 @@ class NMEA2000Decoder():
             combined_payload = bytes([b for idx in sorted(fast_pgn.frames) for b in fast_pgn.frames[idx][::-1]][:fast_pgn.payload_length])[::-1]
             
             nmea = None
-            if combined_payload is not None:
-                logger.debug(f"Combined Payload (hex): {combined_payload})")
-                nmea = self._call_decode_function(pgn, priority, src, dest, timestamp, combined_payload, source_iso_name, raw_can_data)
-
-            # Reset the structure for this PGN
-            del self.data[fast_packet_key]
+            try:
+                if combined_payload is not None:
+                    logger.debug(f"Combined Payload (hex): {combined_payload})")
+                    nmea = self._call_decode_function(pgn, priority, src, dest, timestamp, combined_payload, source_iso_name, raw_can_data)
+            finally:
+                # Reset the structure for this PGN, also when the decoder rejected the payload
+                del self.data[fast_packet_key]
             return nmea
         else:
             logger.debug(f"Waiting for {fast_pgn.payload_length - fast_pgn.bytes_stored} more bytes.")
